@@ -1,4 +1,5 @@
 import ServiceModel.Proofs.CtxOrigin
+import ServiceModel.Proofs.ParamsStable
 /-!
 # C09 — Request contexts follow their lifecycle state machine
 -/
@@ -80,5 +81,15 @@ theorem context_evolution (hc : CfgOK cfg p) {s : State} (hr : Reachable cfg p h
     (c : CtxId) (y : Ctx) (hy : Map.get (step s op).1.ctxs c = some y) :
     (∃ x, Map.get s.ctxs c = some x ∧ CtxEvol x y) ∨ c ∉ s.usedIds :=
   (step_ctx_origin (reachable_inv hc hr) op hw c y hy).imp id And.left
+
+/-- What the consumer (or the owning module) set on a context — providers, fee cap, timeout, frequency, total and
+    response threshold — is the same after any step as before it, unless the step is an update aimed at that very
+    context (a consumer's `MsgUpdateRequestContext`, or the owning module's call). In particular neither another
+    context's operations nor the end of a block touch them. -/
+theorem consumer_set_fields_change_only_by_update {cfg : Config} {p : Params} {h0 t0 : Int} (hc : CfgOK cfg p)
+    {s : State} (hr : Reachable cfg p h0 t0 s) (op : Op) (hw : WF s op) (c : CtxId) (x y : Ctx)
+    (hx : Map.get s.ctxs c = some x) (hy : Map.get (step s op).1.ctxs c = some y) (hnu : op.updTarget ≠ some c) :
+    y.provs = x.provs ∧ y.cap = x.cap ∧ y.timeout = x.timeout ∧ y.freq = x.freq ∧ y.total = x.total ∧ y.thr = x.thr :=
+  step_params_stable (reachable_inv hc hr) op hw c x y hx hy hnu
 
 end SM.C09
